@@ -76,7 +76,7 @@ def configs(tier):
         for nj in (1, 2, -1, n + 2):
             for flag in (True, False):
                 out.append((n, 'shared', flag, nj, None, 'group', 'virtual'))
-    for n in (1, 2, 3) if q else (1, 2, 3, 4):
+    for n in (1, 2, 3, 4) if q else (1, 2, 3, 4, 5):
         for kind in ('none', 'dict', 'list'):
             for nj in (1, 2, 3):
                 if nj > n and nj != 1:
